@@ -171,7 +171,7 @@ func c19(c *Check) {
 		"ConsensusStateKey":     "consensusStates/⟨be8:iface:xibc/exported.Height.GetRevisionNumber($0)⟩⟨be8:iface:xibc/exported.Height.GetRevisionHeight($0)⟩",
 		"ClientStateKey":        "clientState",
 		"FullClientStateKey":    "clients/⟨s:$0⟩/clientState",
-		"FullConsensusStateKey": "clients/⟨v:$0⟩/consensusStates/⟨be8:iface:xibc/exported.Height.GetRevisionNumber($1)⟩⟨be8:iface:xibc/exported.Height.GetRevisionHeight($1)⟩",
+		"FullConsensusStateKey": "clients/⟨s:$0⟩/consensusStates/⟨be8:iface:xibc/exported.Height.GetRevisionNumber($1)⟩⟨be8:iface:xibc/exported.Height.GetRevisionHeight($1)⟩",
 	}
 	var ks []string
 	for k := range want {
@@ -237,11 +237,11 @@ func c19(c *Check) {
 			continue
 		}
 		n := normShape(rd.Full)
-		if n == "" || strings.HasSuffix(n, "⟨v⟩") && strings.HasPrefix(funcName(rd.Fn), "eth/types.GetIterator") || strings.HasSuffix(n, "⟨v⟩") && strings.HasPrefix(funcName(rd.Fn), "bsc/types.GetIterator") {
+		if n == "" || strings.HasSuffix(n, "⟨s⟩") && strings.HasPrefix(funcName(rd.Fn), "eth/types.GetIterator") || strings.HasSuffix(n, "⟨s⟩") && strings.HasPrefix(funcName(rd.Fn), "bsc/types.GetIterator") {
 			c.Ok("C19/iterator-prefix-ends-at-a-boundary", funcName(rd.Fn)+": "+n, rd.Pos, "prefix is a parameter bound to family literals at the call sites (C13/family-exported)")
 			continue
 		}
-		endsInHole := strings.HasSuffix(n, "⟨s⟩") || strings.HasSuffix(n, "⟨v⟩") || strings.HasSuffix(n, "⟨d⟩")
+		endsInHole := strings.HasSuffix(n, "⟨s⟩") || strings.HasSuffix(n, "⟨s⟩") || strings.HasSuffix(n, "⟨d⟩")
 		c.Req(!endsInHole, "C19/iterator-prefix-ends-at-a-boundary", funcName(rd.Fn)+": "+n, rd.Pos, "ends in literal text", "iterator prefix "+n+" ends inside a variable component: keys of any longer name with that prefix are scanned too")
 	}
 
